@@ -241,28 +241,43 @@ class Model(object):
 
 
 def snapshot(db, probes):
-    """Complete query snapshot of a real database through its public API."""
-    cats = db.categories()
+    """Complete query snapshot of a real database through its public API.  An
+    exception raised by a query is recorded as the answer (and will differ
+    from the model's)."""
+    try:
+        cats = list(db.categories())
+    except Exception as e:
+        return {'categories': 'EXC:' + type(e).__name__}
     snap = {'categories': list(cats), 'frozen': bool(db.frozen),
             'lookup': {}, 'iter': {}, 'iter_all': {}, 'specials': {}}
     getters = {'macros': db.get_macro_spec, 'environments': db.get_environment_spec,
                'specials': db.get_specials_spec}
     iters = {'macros': db.iter_macro_specs, 'environments': db.iter_environment_specs,
              'specials': db.iter_specials_specs}
+
+    def listing(kind, **kw):
+        try:
+            return [tag_of(s) for s in iters[kind](**kw)]
+        except Exception as e:
+            return ['EXC:' + type(e).__name__]
     for kind in KINDS:
         lk = {}
         for name in NAMES[kind] + [UNKNOWN_NAME[kind]]:
-            a = tag_of(getters[kind](name))
+            try:
+                a = tag_of(getters[kind](name))
+            except Exception as e:
+                a = 'EXC:' + type(e).__name__
             try:
                 b = tag_of(getters[kind](name, raise_if_not_found=True))
             except KeyError:
                 b = 'KeyError'
+            except Exception as e:
+                b = 'EXC:' + type(e).__name__
             lk[name] = [a, b]
         snap['lookup'][kind] = lk
-        snap['iter'][kind] = {c: sorted(tag_of(s) for s in iters[kind](categories=[c]))
-                              for c in cats}
+        snap['iter'][kind] = {c: sorted(listing(kind, categories=[c])) for c in cats}
         # iteration over all categories must be the concatenation, in order
-        allspecs = [tag_of(s) for s in iters[kind]()]
+        allspecs = listing(kind)
         chunks, i = [], 0
         for c in cats:
             n = len(snap['iter'][kind][c])
@@ -272,7 +287,13 @@ def snapshot(db, probes):
             chunks.append(['<extra>'] + allspecs[i:])
         snap['iter_all'][kind] = chunks
     for p in probes:
-        snap['specials'][p] = [tag_of(db.test_for_specials(p, i)) for i in range(len(p) + 1)]
+        row = []
+        for i in range(len(p) + 1):
+            try:
+                row.append(tag_of(db.test_for_specials(p, i)))
+            except Exception as e:
+                row.append('EXC:' + type(e).__name__)
+        snap['specials'][p] = row
     return snap
 
 
@@ -303,6 +324,8 @@ def first_diff(a, b, path=''):
 def model_free_order_check(snap):
     """Invariant 3: the returned definition is the one of the first category,
     in the *reported* order, whose own iteration contains that name."""
+    if not isinstance(snap.get('categories'), list):
+        return None
     for kind in KINDS:
         for name in NAMES[kind]:
             want = None
